@@ -100,7 +100,12 @@ impl MatrixId {
     /// a slash and they can be in any order.
     pub(crate) fn parse_with_type(s: &str) -> Result<Self, Error> {
         let s = if let Some(stripped) = s.strip_prefix('/') { stripped } else { s };
-        let s = if let Some(stripped) = s.strip_suffix('/') { stripped } else { s };
+        // Strip the slash at the end, unless it is the separator before a last identifier
+        // that is empty after its sigil (like the room ID `!`).
+        let s = match s.strip_suffix('/') {
+            Some(stripped) if [1, 3].contains(&stripped.matches('/').count()) => stripped,
+            _ => s,
+        };
         if s.is_empty() {
             return Err(MatrixIdError::NoIdentifier.into());
         }
